@@ -3,7 +3,7 @@
    Statements only; proofs in Proofs/C04_RunnerPipe.v and Proofs/C04_Spec.v; model in Model/RunnerPipe.v. *)
 From Coq Require Import List NArith Bool Arith.
 Import ListNotations.
-From RV Require Import Model.RunnerPipe Proofs.C04_RunnerPipe Proofs.C04_Spec Proofs.C04_ReorderAdapter.
+From RV Require Import Model.RunnerPipe Proofs.C04_RunnerPipe Proofs.C04_Spec Proofs.C04_Timeout Proofs.C04_ReorderAdapter.
 
 (* For every key-by function, every reorder stage that emits one result per input in input order (C20), every
    router, operator count, MaxSize, time-out setting, input (records of any splits, markers anywhere) and EVERY
@@ -51,6 +51,21 @@ Theorem sender_serialises :
           delivered R s i ++ sndb (s_ops R s i) ++ jhand R s i ++ o_batch (s_ops R s i) ++ later).
 Proof. intros. eapply sender_serialises_lemma; eauto. Qed.
 Print Assumptions sender_serialises.
+
+(* With MaxDelay > 0, in every reachable state (any schedule, in particular any late delivery of a stale time-out
+   callback after its batch was handed out on size and the next batch has started): a non-empty operator batch has
+   its time-out on the way - its timer is still armed with the batch's token, or has expired and its callback has not
+   run yet, or the sender goroutine holds the token and is about to flush. So a record in a partial batch is never
+   left without a time-out (what Flush(stale token) must not destroy). *)
+Theorem timeout_pending :
+  forall (R : rstage) (route : list N -> nat) (nops mx : nat) (input : list item) (sched : list (action R)) (s : st R),
+    run R route nops mx true (init R input) sched = Some s ->
+    forall i, o_batch (s_ops R s i) <> [] ->
+      o_slot (s_ops R s i) = Some (o_tok (s_ops R s i)) \/
+      In (o_tok (s_ops R s i)) (o_late (s_ops R s i)) \/
+      o_snd (s_ops R s i) = STok (o_tok (s_ops R s i)).
+Proof. intros R route nops mx input sched s Hr i. exact (timeout_pending_lemma R route nops mx input sched s Hr i). Qed.
+Print Assumptions timeout_pending.
 
 (* The assumption on the reorder stage is satisfiable: a key-by batcher (any MaxSize, with or without time-out)
    in front of an in-order queue of fetch results. *)
